@@ -1145,6 +1145,11 @@ def search(ck, rng):
             if quick and tag in ('doc', 'documented result') and name not in ('standardize', 'canonicalize', 'fix_resonance', 'standardize_charges',
                                                                               'explicify_hydrogens' if tag == 'doc' else 'neutralize'):
                 continue
+            if quick and tag not in ('geminal', 'azolium', 'aromatic resonance', 'pi-complex') and 'fix_tautomers=False' in name and 'keep_kekule' not in name \
+                    and hash_pick(s, name, 'ft') % 2:
+                continue
+            if quick and tag == 'documented result' and name not in ('standardize', 'canonicalize', 'fix_resonance'):
+                continue
             if quick and tag == 'salt' and name not in ('neutralize', 'neutralize(keep_charge=False)', 'canonicalize'):
                 continue
             if 'keep_kekule' in name and (tag in ('doc', 'documented result') or (tag in ('corpus', 'decorated') and hash_pick(s, 'kk') % 3)):
@@ -1399,6 +1404,7 @@ def run(ck):
     import time
     ck.trusted += ['translator tools/gen_stdrules.py (imports chython under the shim and dumps the live rule objects; source audit of the engine statements by Python ast)',
                    'translator tools/gen_elements.py (element tables used by centre_invalid)',
+                   'translator tools/gen_c14consts.py (Python ast: constants and statement shapes of molecule.py / resonance.py / acid_base.py / query.py)',
                    'correspondence runner harness/checks/C14.py + harness/coqcases.py + harness/coqmol.py (instrumented QueryContainer.get_mapping / '
                    'Resonance.__find_delocalize_path)', 'Model.Valence (C04 model of calc_implicit / valence_rules) inside the correspondence glue coq/model/StandardizeTie.v',
                    'CachedMethods shim harness/boot.py', 'CPython 3.12.1', 'the labelled-graph isomorphism test of harness/checks/C14.py (search only)']
@@ -1422,7 +1428,7 @@ def run(ck):
         laps[name] = round(time.time() - t0, 1)
         t0 = time.time()
 
-    proved = common.standard_proof_steps(ck, translators=['elements', 'stdrules'], extra_targets=('model/StandardizeTie.vo', 'model/StandardizeMatch.vo', 'model/StandardizeNeutral.vo'))
+    proved = common.standard_proof_steps(ck, translators=['elements', 'stdrules', 'c14consts'], extra_targets=('model/StandardizeTie.vo', 'model/StandardizeMatch.vo', 'model/StandardizeNeutral.vo'))
     lap('proof')
     tied = True
     disagreeing = []
